@@ -16,3 +16,60 @@ def split0(s):
 @REG.spec([Str], Str, uninterpreted='py_strip')
 def strip_(s):
     return s.strip()
+
+
+# ---- the line-by-line meaning of a template: line k of the output is the rendering of line k of the template
+from pyvc.api import Set, EMPTY, unit
+SubstR = Rec('SubstR', text=Str, missing=Set(Str))
+REG.consts.update(SubstR=SubstR)
+
+
+@REG.spec([Obj, Str, Obj], Str, uninterpreted='fn_do_define_meson')
+def render_mesondefine(regex, line, confdata):
+    import mesonbuild.utils.universal as U
+    return U.do_define_meson(regex, line, confdata, None)
+
+
+@REG.spec([Obj, Str, Obj], SubstR, uninterpreted='fn_do_replacement_meson')
+def render_meson_subst(regex, line, confdata):
+    import mesonbuild.utils.universal as U
+    return U.do_replacement_meson(regex, line, confdata)
+
+
+@REG.spec([Str, Obj, Bool], Str, uninterpreted='fn_do_define_cmake')
+def render_cmakedefine(line, confdata, at_only):
+    import mesonbuild.utils.universal as U
+    return U.do_define_cmake(line, confdata, at_only, None)
+
+
+@REG.spec([Str, Bool, Obj], SubstR, uninterpreted='fn_do_replacement_cmake')
+def render_cmake_subst(line, at_only, confdata):
+    import mesonbuild.utils.universal as U
+    return U.do_replacement_cmake(line, at_only, confdata)
+
+
+@REG.spec([Str], Bool)
+def is_mesondefine_line(s):
+    return s.lstrip().startswith('#mesondefine')
+
+
+@REG.spec([Str], Bool)
+def is_cmakedefine_line(s):
+    """`#cmakedefine` / `#cmakedefine01` with blanks allowed before the # and between the # and the word"""
+    return len(s.lstrip()) >= 2 and s.lstrip()[0] == '#' and s.lstrip()[1:].lstrip().startswith('cmakedefine')
+
+
+@REG.spec([Obj, Seq(Str), Obj, Int], Seq(Str))
+def meson_lines(regex, data, confdata, n):
+    """the rendering of the first n lines of a meson-format template"""
+    if n <= 0:
+        return EMPTY
+    return meson_lines(regex, data, confdata, n - 1) + unit(render_mesondefine(regex, data[n - 1], confdata) if is_mesondefine_line(data[n - 1]) else render_meson_subst(regex, data[n - 1], confdata).text)
+
+
+@REG.spec([Seq(Str), Obj, Bool, Int], Seq(Str))
+def cmake_lines(data, confdata, at_only, n):
+    """the rendering of the first n lines of a cmake-format template"""
+    if n <= 0:
+        return EMPTY
+    return cmake_lines(data, confdata, at_only, n - 1) + unit(render_cmakedefine(data[n - 1], confdata, at_only) if is_cmakedefine_line(data[n - 1]) else render_cmake_subst(data[n - 1], at_only, confdata).text)
